@@ -393,7 +393,13 @@ pub struct HData<'a> {
 impl<'a> DynamicSystemData<'a> for HData<'a> {
     type Accessor = HAcc;
 
-    fn setup(_: &HAcc, _: &mut World) {}
+    /// The harness systems do NOT override `System::setup`: the library's default hook hands the system's own
+    /// accessor (`System::accessor`, not a default-constructed one) to this function, which is what gets counted.
+    fn setup(acc: &HAcc, _: &mut World) {
+        if acc.id != usize::MAX {
+            acc.ctx.setups.lock().unwrap()[acc.id] += 1;
+        }
+    }
 
     fn fetch(acc: &HAcc, world: &'a World) -> Self {
         let ctx = acc.ctx.clone();
@@ -566,10 +572,6 @@ impl<'a> System<'a> for HSys {
 
     fn accessor<'b>(&'b self) -> AccessorCow<'a, 'b, Self> {
         AccessorCow::Ref(&self.acc)
-    }
-
-    fn setup(&mut self, _world: &mut World) {
-        self.acc.ctx.setups.lock().unwrap()[self.acc.id] += 1;
     }
 
     fn dispose(self, _world: &mut World) {
